@@ -65,15 +65,33 @@ theorem verifySigner_none {c : Ctx} {b : Block} (h : verifySigner c b = none) :
 
 /-! ### verifyTxs -/
 
-theorem txOk_bounds {t : Nat} {tx : Tx} (hexp : tx.exp < 18446744073709551616) (h : txOk t tx = true) :
-    t ≤ tx.exp ∧ tx.exp ≤ t + 1800 ∧ tx.bodyOk = true := by
-  unfold txOk txExpiredCond txTooFarCond at h
+theorem window_bounds {t e : Nat} (hexp : e < 18446744073709551616)
+    (h : (!(txExpiredCond (timeStamp := t) (tx_Expiration := e)) &&
+          !(txTooFarCond (timeStamp := t) (tx_Expiration := e))) = true) : t ≤ e ∧ e ≤ t + 1800 := by
+  unfold txExpiredCond txTooFarCond at h
   simp only [Bool.and_eq_true, Bool.not_eq_true', decide_eq_false_iff_not] at h
-  obtain ⟨⟨h1, h2⟩, h3⟩ := h
-  have hle : t ≤ tx.exp := by omega
-  refine ⟨hle, ?_, h3⟩
+  obtain ⟨h1, h2⟩ := h
+  have hle : t ≤ e := by omega
+  refine ⟨hle, ?_⟩
   rw [GoSem.usub_small hle hexp] at h2
   omega
+
+theorem txOk_bounds {t : Nat} {tx : Tx} (hexp : tx.exp < 18446744073709551616) (h : txOk t tx = true) :
+    t ≤ tx.exp ∧ tx.exp ≤ t + 1800 ∧ tx.bodyOk = true := by
+  unfold txOk at h
+  simp only [Bool.and_eq_true] at h
+  obtain ⟨⟨⟨h1, h2⟩, h3⟩, _⟩ := h
+  obtain ⟨a, b⟩ := window_bounds (t := t) hexp (by rw [h1, h2]; rfl)
+  exact ⟨a, b, h3⟩
+
+/-- the transactions inside a box are inside the window of the BLOCK time too -/
+theorem txOk_sub_bounds {t : Nat} {tx : Tx} (h : txOk t tx = true) :
+    ∀ e ∈ tx.subExps, e < 18446744073709551616 → t ≤ e ∧ e ≤ t + 1800 := by
+  unfold txOk at h
+  simp only [Bool.and_eq_true, List.all_eq_true] at h
+  intro e he hexp
+  have := h.2 e he
+  exact window_bounds hexp (by simpa using this)
 
 theorem verifyTxs_none {c : Ctx} {b : Block} (h : verifyTxs c b = none) :
     c.onAncestor b.header.parentHash b.txs = false ∧ ∀ tx ∈ b.txs, txOk b.header.time tx = true := by
